@@ -16,11 +16,17 @@ Definition num_okb (t : bytes) : bool :=
 Definition plain_okb (t : bytes) : bool :=
   forallb (fun b => (0x20 <=? bN b)%N && (bN b <? 0x80)%N && negb (Byte.eqb b QUOTE) && negb (Byte.eqb b BSLASH)) t.
 (* a reflected text is one JSON value, without control bytes *)
+(* first byte: not whitespace, not a closing bracket *)
+Definition start_okb (t : bytes) : bool :=
+  match t with b :: _ => negb (is_ws b) && negb (Byte.eqb b RBRACK) | [] => false end.
 Definition raw_okb (t : bytes) : bool :=
-  tok_okb t && no_ctl t && match parse t with Some _ => true | None => false end.
+  tok_okb t && no_ctl t && start_okb t &&
+  match p_value (length t) t with Some (_, []) => true | _ => false end.
+Definition num_head_okb (t : bytes) : bool :=
+  match t with b :: _ => is_digit b || Byte.eqb b x2d | [] => false end.
 
 Definition wf_fv (f : fv) : bool :=
-  plain_okb (ftxt f) && match fcls f with FFin => tok_okb (ftxt f) && num_okb (ftxt f) | _ => true end.
+  plain_okb (ftxt f) && match fcls f with FFin => tok_okb (ftxt f) && num_okb (ftxt f) && num_head_okb (ftxt f) | _ => true end.
 Definition wf_rend (r : rend) : bool := match r with RFloat f => wf_fv f | _ => true end.
 Definition wf_tv (t : tv) : bool := wf_rend (t_rend t).
 Definition wf_dv (d : dv) : bool := wf_rend (d_rend d).
